@@ -66,7 +66,7 @@ func (c Config) ClientOptions() []connect.ClientOption {
 	}
 	for _, name := range c.CAccept {
 		d, cm := comp.New(name)
-		opts = append(opts, connect.WithAcceptCompression(name, d, cm))
+		opts = append(opts, connect.WithAcceptCompression(comp.WireName(name), d, cm))
 	}
 	if c.CSend != "" {
 		opts = append(opts, connect.WithSendCompression(c.CSend))
@@ -84,7 +84,7 @@ func (c Config) HandlerOptions() []connect.HandlerOption {
 	var opts []connect.HandlerOption
 	for _, name := range c.HComp {
 		d, cm := comp.New(name)
-		opts = append(opts, connect.WithCompression(name, d, cm))
+		opts = append(opts, connect.WithCompression(comp.WireName(name), d, cm))
 	}
 	if c.HMin != 0 {
 		opts = append(opts, connect.WithCompressMinBytes(c.HMin))
